@@ -317,7 +317,7 @@ func propPoints(c Case, l geom.Layout) error {
 	}
 	nn := big.NewRat(n, 1)
 	wx, wy := exact.Quo(sx, nn), exact.Quo(sy, nn)
-	k := exact.Mul(big.NewRat(8*(n+2), 1), u53)
+	k := exact.Mul(big.NewRat(3*(n+2), 1), u53)
 	tx, ty := exact.Mul(k, exact.Quo(ax, nn)), exact.Mul(k, exact.Quo(ay, nn))
 	flat := flatOf(ps, l)
 	mp := geom.NewMultiPointFlat(l, flat)
@@ -415,7 +415,7 @@ func lineRef(lines [][]pt) (wx, wy, tx, ty *big.Rat, ok bool) {
 		r, _ := new(big.Float).SetPrec(prec).Quo(a, L).Rat(nil)
 		return r
 	}
-	k := exact.Mul(big.NewRat(8*(n+8), 1), u53)
+	k := exact.Mul(big.NewRat(3*(n+8), 1), u53)
 	return q(sx), q(sy), exact.Mul(k, q(ax)), exact.Mul(k, q(ay)), true
 }
 
@@ -555,7 +555,7 @@ func propPolygons(c Case, l geom.Layout, polys [][][]pt, what string) error {
 			}
 		}
 		den := exact.Mul(three, rabs(A2))
-		k := exact.Mul(big.NewRat(8*(n+8), 1), u53)
+		k := exact.Mul(big.NewRat(3*(n+8), 1), u53)
 		k4 := exact.Mul(big.NewRat(32, 1), u53)
 		tx = exact.Add(exact.Mul(k, exact.Quo(sumx, den)), exact.Mul(k4, rabs(wx)))
 		ty = exact.Add(exact.Mul(k, exact.Quo(sumy, den)), exact.Mul(k4, rabs(wy)))
@@ -696,4 +696,7 @@ var spec = run.Spec[Case]{ID: "C14", Name: "centroid", Gen: genCase, Prop: prop,
 
 func TestPropCentroid(t *testing.T) { run.Generated(t, spec) }
 func TestRegress(t *testing.T)      { run.Regress(t, spec) }
-func TestReplay(t *testing.T)       { run.ReplayOne(t, spec) }
+func TestReplay(t *testing.T) {
+	run.ReplayOne(t, spec)
+	run.ReplayOne(t, bigSpec)
+}
